@@ -1,7 +1,7 @@
 (* C09: streaming is transparent -- results independent of I/O fragmentation and faults. *)
 From Coq Require Import List NArith Lia Bool.
 From Rpgp Require Import Base.Octets Base.Res Sym.Cfb Sym.Seipd1Machine Sym.Seipd1MachineProofs Frame.Framing Frame.BodyReader Frame.BodyReaderProofs Aead.Seipd2 Aead.Seipd2Machine Aead.Seipd2MachineProofs Io.Emitter Io.EmitterProofs Sym.Seipd1EncMachine Sym.Seipd1EncMachineProofs.
-From Rpgp Require Import Io.Utf8Check Io.Utf8CheckProofs Io.CrLfCheck Io.CrLfCheckProofs Io.Reassemble Io.ReassembleProofs Io.Fill Io.FillProofs Armor.Base64 Armor.LineWriter Armor.LineWriterProofs Armor.B64Reader Armor.B64ReaderProofs.
+From Rpgp Require Import Msg.ReadEnd Msg.ReadEndProofs Io.Utf8Check Io.Utf8CheckProofs Io.CrLfCheck Io.CrLfCheckProofs Io.Reassemble Io.ReassembleProofs Io.Fill Io.FillProofs Armor.Base64 Armor.LineWriter Armor.LineWriterProofs Armor.B64Reader Armor.B64ReaderProofs.
 Import ListNotations.
 Open Scope N_scope.
 
@@ -169,3 +169,27 @@ Theorem C09_utf8_check_cutting_independent : forall chunks1 chunks2,
   concat chunks1 = concat chunks2 -> utf8_run [] chunks1 = utf8_run [] chunks2.
 Proof. exact utf8_run_cutting_independent. Qed.
 Print Assumptions C09_utf8_check_cutting_independent.
+
+(* the message's own read() above its layers (the end-of-message check runs when a read into a NON-EMPTY buffer gets nothing;
+   fix 63f292e): a read into an empty buffer returns nothing and changes nothing ... *)
+Theorem C09_message_zero_read_is_neutral : forall ok left, msg_read ok 0 left = (Data [], left).
+Proof. exact zero_read_is_neutral. Qed.
+Print Assumptions C09_message_zero_read_is_neutral.
+
+(* ... so whatever the request sizes, zeros among them: the end is reported only behind the whole payload, with the verdict of
+   the end-of-message check, and a consumer that keeps asking for something gets there *)
+Theorem C09_message_end_means_whole_payload : forall ok reqs left v,
+  snd (consume (msg_read ok) reqs left) = Some v -> fst (consume (msg_read ok) reqs left) = left /\ v = ok.
+Proof. exact consume_end_means_whole. Qed.
+Print Assumptions C09_message_end_means_whole_payload.
+
+Theorem C09_message_consumer_reaches_end : forall ok left reqs,
+  Forall (fun n => n <> 0) reqs -> (length left < length reqs)%nat -> consume (msg_read ok) reqs left = (left, Some ok).
+Proof. exact consume_reaches_end. Qed.
+Print Assumptions C09_message_consumer_reaches_end.
+
+(* the reader as it was: one octet of payload, a zero request, and the message "ends" empty *)
+Theorem C09_message_unfixed_read_ends_early :
+  consume (unfixed_read true) [0; 5; 5] [x61] = ([], Some true) /\ consume (msg_read true) [0; 5; 5] [x61] = ([x61], Some true).
+Proof. exact unfixed_ends_early. Qed.
+Print Assumptions C09_message_unfixed_read_ends_early.
